@@ -324,8 +324,9 @@ theorem items_lexM_modulo : (its : Items) → its.lexM.filter keep = (its.lex.ma
 end
 
 /-- COMMENTS SURVIVE EXACTLY ONCE, IN ORDER, IN PLACE. For every well-formed file of the fragment
-    (containers, parentheses, function calls, `with e; body` and `assert e; body` with comments
-    anywhere but in the three gaps of the `with` / `assert` itself) in which no comment overtakes
+    (containers, parentheses, function calls, `with e; body`, `assert e; body`, selects, lambdas, unary and binary
+    operators, `if c then a else b`, has-attr `e ? a.b`, with comments anywhere but in the inner gaps of these
+    keyword / operator constructs themselves: `Cst.wf`) in which no comment overtakes
     another (`File.orderOk`: in item sequences, see `cex_comment_overtakes`; between function and
     argument of a call, `appOrderOk`, see `cex_call_comment_reordered`) and no comment follows an
     `assert` item (`!c.isAsrt || rest.noCmt`, see `cex_comment_after_assert`), the
